@@ -594,6 +594,6 @@ func NormalizeRefs(s string) string {
 		"&quot;", "&#34;", "&#x22;", "&#34;", "&#X22;", "&#34;", "&#034;", "&#34;",
 		"&apos;", "&#39;", "&#x27;", "&#39;", "&#X27;", "&#39;", "&#039;", "&#39;",
 		"&#38;", "&amp;", "&#x26;", "&amp;", "&#60;", "&lt;", "&#x3c;", "&lt;", "&#x3C;", "&lt;",
-		"&#62;", "&gt;", "&#x3e;", "&gt;", "&#x3E;", "&gt;",
+		"&#62;", "&gt;", "&#x3e;", "&gt;", "&#x3E;", "&gt;", "&#0;", "\x00",
 	).Replace(s)
 }
